@@ -1960,6 +1960,16 @@ class Interp:
             a = to_node(args[0])
             t = NP_ALIASES[nm]
             return X.fn(t, a)
+        if nm in ('round', 'around', 'round_') and args and is_num(args[0]):
+            # rounding to a fixed number of decimals: exact on concrete numbers, otherwise an uninterpreted function of its argument (it is NOT the identity: an absolute
+            # rounding loses the digits of small values)
+            c_ = concrete(args[0])
+            nd_ = kwargs.get('decimals', args[1] if len(args) > 1 else 0)
+            cn_ = concrete(nd_) if nd_ is not None else 0
+            if c_ is not None and isinstance(cn_, int):
+                return Fraction(round(Fraction(c_) * 10 ** cn_), 10 ** cn_) if cn_ != 0 else int(round(Fraction(c_)))
+            r_ = X.fn('round', to_node(args[0]), to_node(nd_ if nd_ is not None else 0))
+            return ArrBox(r_) if isinstance(args[0], ArrBox) else r_
         if nm == 'abs':
             a = args[0]
             if isinstance(a, (int, Fraction)): return abs(a)
